@@ -10,7 +10,7 @@ import hj_common as H
 THEOREMS = ['C08_replay', 'C08_replay_of_run', 'C08_log_is_accepted_calls', 'C08_refused_calls_are_noise', 'accepted_eq_iff',
             'C08_ranked_order_unobservable', 'C08_ranked_order_unobservable_obs', 'C08_interleaving', 'cardLog_reachable',
             'C08_cards_are_the_log', 'C08_log_bibs_registered', 'C08_round_robin_import', 'freshOrRanked_reachable',
-            'C08_pass_is_only_a_mark', 'C08_passes_can_be_dropped', 'C08_card_import']
+            'C08_pass_is_only_a_mark', 'C08_passes_can_be_dropped', 'C08_card_import', 'C08_cells_are_the_log', 'C08_cell']
 
 def obs(c, passes_aside=False):
     """state and standings: state, heights, (bib, place, best, card); optionally explicit pass marks and trailing blanks aside"""
